@@ -18,6 +18,12 @@ def run(tier):
     res.coverage['transitions'] += total['transitions']
     res.coverage['traces_validated_against_impl'] += total['states']
     res.coverage['unordered_stage_scenarios'] = len(js)
+    # items() of a per-epoch reshuffle behind prefetch / parallel map (every backend model, all schedules): every pair
+    # is the pair the plain, equally seeded pipeline yields, or items() is refused loudly
+    from vf.checks import _e2, c04
+    _e2.run_matrix('C03', 'oracle_values', [(c, 'D', None) for c in c04.random_stage(tier, modes=('items',))], res,
+                   'items() over reshuffle behind prefetch / parallel map, three epochs; mode D')
+    res.coverage['traces_validated_against_impl'] += res.coverage.get('executions', 0)
     return res
 
 
@@ -29,4 +35,7 @@ def replay(data):
         res.violations = [common.Violation.from_json(v) for v in viols]
         res.coverage.update(states=st['states'], transitions=st['transitions'])
         return res
+    if data['replay'].get('engine') == 'schedmc':
+        from vf.checks import _e2
+        return _e2.replay('C03', data)
     return _e1.replay('C03', {'keys'}, data)
